@@ -172,7 +172,7 @@ func encodeJsonObject(jsonObject map[string]any, largeEncoding bool) (typeId byt
 		}
 
 		keyEntriesBuffer = appendForEncoding(keyEntriesBuffer, nextKeysOffset, largeEncoding)
-		keyEntriesBuffer = append(keyEntriesBuffer, byte(len(encodedValue)), byte(len(encodedValue)<<8))
+		keyEntriesBuffer = append(keyEntriesBuffer, byte(len(encodedValue)), byte(len(encodedValue)>>8))
 		keysBuffer = append(keysBuffer, encodedValue...)
 		nextKeysOffset += uint32(len(encodedValue))
 	}
